@@ -39,6 +39,7 @@ fn conn_err_str(e: &ConnectionError) -> String {
         }
         ConnectionError::Remote(ConnectionErrorIncoming::Timeout) | ConnectionError::Timeout => "err:cr:timeout".to_string(),
         ConnectionError::Remote(ConnectionErrorIncoming::InternalError(_)) => "err:cr:internal".to_string(),
+        ConnectionError::Remote(ConnectionErrorIncoming::Undefined(_)) => "err:cr:undefined".to_string(),
         _ => "err:cr:other".to_string(),
     }
 }
@@ -50,6 +51,7 @@ fn stream_err_str(e: &StreamError) -> String {
         StreamError::ConnectionError(c) => conn_err_str(c),
         StreamError::HeaderTooBig { .. } => "err:toobig".to_string(),
         StreamError::RemoteClosing => "err:closing".to_string(),
+        StreamError::Undefined(_) => "err:undef".to_string(),
         _ => "err:other".to_string(),
     }
 }
@@ -254,6 +256,10 @@ fn run_case(role: &str, acts: &str) -> String {
     }
     let mut out = vec!["ok".to_string()];
     let mut seen = 0usize;
+    // once the transport itself has failed the connection driver is not scheduled any more: what it does with that
+    // failure, and which of several connection errors every handle then reports (first one wins), is C05's subject;
+    // here the request stream is observed on its own
+    let mut transport_failed = false;
     for a in acts.split(',').filter(|a| !a.is_empty()) {
         let (k, rest) = a.split_at(1);
         match k {
@@ -268,9 +274,16 @@ fn run_case(role: &str, acts: &str) -> String {
             "R" => {
                 apply_event(&w, &format!("0:R{}", rest));
             }
-            "X" => {
-                // a connection loss only shows once the stream's queue is drained (SimQuic); keep it out of C03's alphabet
-                return "driver-error X-not-supported".into();
+            "K" => {
+                apply_event(&w, "0:K");
+            }
+            // the transport fails as a whole; SimQuic shows it on a stream once that stream's queue is drained, i.e. where
+            // a terminal event of the queue would be (the generators put nothing after it)
+            "X" | "I" | "T" => {
+                if !apply_event(&w, a) {
+                    return "driver-error bad-connection-event".into();
+                }
+                transport_failed = true;
             }
             "p" => {
                 if !ex.done(t_req) {
@@ -289,7 +302,7 @@ fn run_case(role: &str, acts: &str) -> String {
                 }
                 // let the connection driver react (it closes the connection when a stream raised a connection error)
                 let mut guard = 0;
-                while ex.is_woken(t_conn) && guard < 100 {
+                while !transport_failed && ex.is_woken(t_conn) && guard < 100 {
                     ex.poll(t_conn);
                     guard += 1;
                 }
